@@ -63,6 +63,9 @@ func drawWorkload(t *core.Tape, kind int) wlInput {
 	case 3: // truncate
 		d = d[:t.Draw(len(d)+1)]
 	}
+	if t.Chance(1, 25) {
+		d = nil // the empty input: every constructor has a special case for it
+	}
 	if t.Chance(1, 5) {
 		// insert runes of every UTF-8 width and several categories at tape-chosen positions
 		d = append([]byte{}, d...)
